@@ -236,6 +236,18 @@ Fixpoint pcatch {A} (m : prog A) : prog (option A) :=
   | Throw x => Throw x
   end.
 
+(* Go's deferred recover in localizer.Run (since the repair 113a8f3): an error return AND a panic are
+   intercepted (the cleanup runs, then the error is returned / the panic re-raised); a process exit
+   (log.Fatalf) is not *)
+Fixpoint ptry {A} (m : prog A) : prog (A + exn) :=
+  match m with
+  | Ret a => Ret (inl a)
+  | Op e k => Op e (fun r => ptry (k r))
+  | Throw XErr => Ret (inr XErr)
+  | Throw XPanic => Ret (inr XPanic)
+  | Throw x => Throw x
+  end.
+
 Notation "'dop' x <- m ; k" := (pbind m (fun x => k))
   (at level 200, x name, m at level 100, k at level 200, right associativity).
 
@@ -747,7 +759,7 @@ Definition localize_prelude (target scope newdir : string) : prog (cpath * cpath
   prelude_create x.
 
 (* part 2 — Run after NewLoader: MkdirAll(dst) (since d268200 with cleanup on failure),
-   localize(), cleanup on error.  Returns args.NewDir.String(). *)
+   localize(), cleanup on error and — since 113a8f3 — on panic.  Returns args.NewDir.String(). *)
 Definition localize_tail (orc : oracles) (fuel : nat) (x : cpath * cpath * cpath) : prog string :=
   let '(sc, troot, nd) := x in
   let args := mkArgs sc nd in
@@ -755,10 +767,10 @@ Definition localize_tail (orc : oracles) (fuel : nat) (x : cpath * cpath * cpath
   Op (EMkdirAll (show_abs dst)) (fun r0 =>
     match r0 with
     | RUnit =>
-        dop r2 <- pcatch (localize orc args fuel (mkLc troot [] dst)) ;
+        dop r2 <- ptry (localize orc args fuel (mkLc troot [] dst)) ;
         match r2 with
-        | Some _ => Ret (show_abs nd)
-        | None => Op (ERemoveAll (show_abs nd)) (fun _ => Throw XErr)
+        | inl _ => Ret (show_abs nd)
+        | inr x => Op (ERemoveAll (show_abs nd)) (fun _ => Throw x)   (* x = XErr: error return; XPanic: re-panic *)
         end
     | _ => Op (ERemoveAll (show_abs nd)) (fun _ => Throw XErr)
     end).
